@@ -1,10 +1,11 @@
 CONFIG = {
-    'subs': ['Ser'],
-    'props_modules': ['DmlcModel.Props.C15', 'DmlcModel.Props.C15Witness'],
+    'subs': ['Ser', 'RowBlock'],
+    'props_modules': ['DmlcModel.Props.C15', 'DmlcModel.Props.C15Witness', 'DmlcModel.Props.C15RowBlock'],
     'driver': 'Ser',
     'harness': {'name': 'ser', 'srcs': ['harness/h_ser.cc', 'harness/h_ser_le.cc', 'harness/h_ser_be.cc'],
                 'args': ['--prop', 'C15']},
-    'rule': 'cases = (type, value) pairs over 71 concrete C++ types (62 in the swap build; depth <= 3: arithmetic 1/2/4/8 '
+    'rule': 'cases = (type, value) pairs over 72 concrete C++ types (63 in the swap build, incl. the real '
+            'dmlc::data::RowBlockContainer<uint32_t,float>::Save/Load presented as the class of its nine members; depth <= 3: arithmetic 1/2/4/8 '
             'bytes incl. float/double bit patterns, string, pair, vector/list/deque, set/multiset/unordered_set, '
             'map/multimap/unordered_map, classes with Save/Load, POD structs) x both byte-order builds, each with the '
             'ops enc (bytes vs reference layout), rt (round trip + consumption with a random tail), rtd x3 (the same read '
